@@ -5,6 +5,7 @@
 -/
 import AeicProofs.Lemmas.C01Assemble
 import AeicProofs.Lemmas.KernelBridge2
+import AeicProofs.Lemmas.KernelBridge5
 
 set_option linter.unnecessarySeqFocus false
 
@@ -611,5 +612,65 @@ theorem src_apu_splits (f : Fuel ℝ) (so2 so4 t : ℝ) (a : ApuIn ℝ) (h2 h4 :
   constructor
   · rw [← mul_add, ← mul_add, s1, mul_one]
   · exact i3.symm ▸ rfl
+
+/-! ## Source tie for the assembly itself: the *vector* kernels regenerated from `emissions/emission.py` and
+    `emissions/trajectory.py` (`Aeic.Kern.segment_fuel_burn`, `traj_emissions`, `traj_indices`, `traj_fuel_burn`,
+    `traj_window_lo/hi`, `species_total`, `lifecycle_co2`) — statements about the source text for trajectories of EVERY length,
+    every window, every index array. -/
+
+/-- every per-segment amount the source returns equals its (returned) emission index times the fuel burned in that segment —
+    inside the emission window and outside it (where both are zero) -/
+theorem src_segment_eq_index_times_burn (idx fb : List ℝ) (lo hi : Nat) (hl : idx.length = fb.length) :
+    Kern.traj_emissions idx fb lo hi = mulList (Kern.traj_indices idx fb lo hi) fb := by
+  obtain ⟨h1, h2, _⟩ := KernelBridge5.traj_window idx fb lo hi
+  rw [h1, h2, window_mulList]
+
+/-- the fuel the trajectory part reports is the sum of the per-segment burns inside the window, and the amounts sum to
+    Σ index × burn over the same window -/
+theorem src_window_sums (idx fb : List ℝ) (lo hi : Nat) :
+    Kern.traj_fuel_burn idx fb lo hi = (pySlice lo hi fb).sum ∧
+    (Kern.traj_emissions idx fb lo hi).sum = (pySlice lo hi (mulList idx fb)).sum := by
+  obtain ⟨h1, _, h3⟩ := KernelBridge5.traj_window idx fb lo hi
+  exact ⟨by rw [h3, suml_eq_sum], by rw [h1, sum_window]⟩
+
+/-- the per-segment fuel burn of the source telescopes: its sum is the first fuel mass minus the last one, so every kilogram of
+    trajectory fuel is counted exactly once (whatever the number of points) -/
+theorem src_segment_burn_telescopes (AV : String → List ℝ) :
+    (Kern.segment_fuel_burn AV).sum = (AV "traj.fuel_mass").headD 0 - lastD (AV "traj.fuel_mass") 0 ∧
+    (Kern.segment_fuel_burn AV).length = (AV "traj.fuel_mass").length := by
+  rw [KernelBridge5.segment_fuel_burn]; exact ⟨fuelBurn_sum _, fuelBurn_length _⟩
+
+/-- in trajectory accounting mode the window of the source is the whole flight; in LTO mode it is what lies between the climb
+    and the descent points -/
+theorem src_window_bounds (n nc nd : Nat) :
+    Kern.traj_window_lo n nc nd false = 0 ∧ Kern.traj_window_hi n nc nd false = n ∧
+    Kern.traj_window_lo n nc nd true = nc ∧ Kern.traj_window_hi n nc nd true = n - nd := by
+  simp [Kern.traj_window_lo, Kern.traj_window_hi]
+
+/-- the total the source reports for a species is the sum of the parts that are present and enabled — trajectory amounts, LTO
+    amounts, APU and GSE amounts — and nothing else -/
+theorem src_total_eq_sum_of_parts (tv : List ℝ) (lto apu gse : ℝ) (bt bl ea ba eg bg : Bool) :
+    Kern.species_total tv lto apu gse bt bl ea ba eg bg =
+      (if bt then tv.sum else 0) + (if bl then lto else 0) + (if ea && ba then apu else 0) + (if eg && bg then gse else 0) := by
+  simp only [Kern.species_total, KernelBridge5.vsum_eq, lit_real]
+  cases bt <;> cases bl <;> cases ea <;> cases ba <;> cases eg <;> cases bg <;> simp
+
+/-- … and these source-level pieces ARE the model's (`fuelBurn`, `window`, `sumTotal`, `lifecycleAdj`), so the balance theorems
+    above, proved about `assemble`, speak about the source text -/
+theorem src_assembly_is_model (c : Cfg) (traj : SV (List ℝ)) (lto : SV (TM ℝ)) (apu gse : SV ℝ) (s : Sp) (idx fb : List ℝ)
+    (lo hi : Nat) (AV : String → List ℝ) (f : Fuel ℝ) (lc : ℝ) :
+    Kern.segment_fuel_burn AV = fuelBurn (AV "traj.fuel_mass") ∧
+    Kern.traj_emissions idx fb lo hi = window lo hi (mulList idx fb) ∧
+    Kern.traj_indices idx fb lo hi = window lo hi idx ∧
+    Kern.traj_fuel_burn idx fb lo hi = suml (pySlice lo hi fb) ∧
+    some (Kern.species_total ((traj s).getD []) (((lto s).map TM.sum).getD 0) ((apu s).getD 0) ((gse s).getD 0)
+      (traj s).isSome (lto s).isSome c.apu (apu s).isSome c.gse (gse s).isSome) = sumTotal c traj lto apu gse s ∧
+    Kern.lifecycle_co2 (KernelBridge5.lcEnv f lc) AV = lifecycleAdj f (AV "traj.fuel_mass") lc :=
+  ⟨KernelBridge5.segment_fuel_burn AV, (KernelBridge5.traj_window idx fb lo hi).1, (KernelBridge5.traj_window idx fb lo hi).2.1,
+   (KernelBridge5.traj_window idx fb lo hi).2.2, KernelBridge5.species_total c traj lto apu gse s, KernelBridge5.lifecycle f lc AV⟩
+
+/-- worked instance: four points, window [1, 3): amounts outside the window are zero, inside they are index × burn -/
+example : Kern.traj_emissions [2, 3, 5, 7] [0, 10, 20, 30] 1 3 = ([0, 30, 100, 0] : List ℝ) := by
+  simp [Kern.traj_emissions, Vec.zeroPrefix, Vec.zeroFrom, lit_real]; norm_num
 
 end C01
